@@ -469,6 +469,8 @@ def norm_obs(o):
 
 def features(case):
     f = []
+    if case.get("scale"):
+        return f
     for op in case.get("ops", []):
         if "bt" in (op[2], op[3]):
             f.append("target:backtick")
